@@ -6,7 +6,7 @@ use nom::{
     branch::alt,
     bytes::complete::tag,
     character::complete::char,
-    combinator::{into, map, map_res, opt, value},
+    combinator::{into, map, map_res, opt, value, verify},
     multi::{many0_count, many1, separated_list0, separated_list1},
     sequence::{delimited, pair, preceded, separated_pair, terminated},
     Parser,
@@ -335,7 +335,11 @@ fn value_range(input: Input<'_>) -> ParserResult<'_, SubtypeElements> {
 fn size_constraint(input: Input<'_>) -> ParserResult<'_, SubtypeElements> {
     opt_delimited(
         skip_ws_and_comments(char(LEFT_PARENTHESIS)),
-        skip_ws_and_comments(into(preceded(tag(SIZE), constraint))),
+        // only a subtype constraint can follow SIZE (X.680 51.5)
+        skip_ws_and_comments(into(preceded(
+            tag(SIZE),
+            verify(constraint, |c| matches!(c, Constraint::Subtype(_))),
+        ))),
         skip_ws_and_comments(char(RIGHT_PARENTHESIS)),
     )
     .parse(input)
